@@ -11,6 +11,7 @@ T: every instance is written by OFXClient.serialize in the 6 wire forms x header
    judges: the file denotes the original instance, and the model read back equals it.
 """
 import datetime
+import decimal
 import random
 
 import doc_common as dc
@@ -26,6 +27,12 @@ def perturb_datetimes(inst, schema, rnd):
     for a in schema[cls]["attrs"]:
         if a["k"] == "elem":
             v = getattr(inst, a["a"])
+            if isinstance(v, decimal.Decimal) and rnd.random() < 0.3:
+                # values a caller sets directly: zeros and trailing zeros keep their exponent
+                try:
+                    setattr(inst, a["a"], decimal.Decimal(rnd.choice(["0.00", "-0.000", "1.50", "100", "0", "-0", "0.10", "12345678901234567890123456789.123"])))
+                except Exception:
+                    pass
             if isinstance(v, datetime.datetime) and rnd.random() < 0.5:
                 off = rnd.choice([-300, 330, -570, 60, 840, -720, -30])
                 tz = datetime.timezone(datetime.timedelta(minutes=off), rnd.choice(["EST", "X Y", "é"]))
